@@ -99,6 +99,7 @@ struct Model {
     bool directed = true;
     char fam = 'L';
     bool nolabel = false;
+    bool singleLabel = false; // label type with a single value (empty struct): every label equals every other
     size_t n = 0;
     std::map<UPair, MVal> e;
 
@@ -450,8 +451,14 @@ inline void expectedObs(const Model &m, Obs &o, const ExpectOptions &opt) {
             o.has[a][b] = 1;
             o.val[a][b] = val;
             o.valnt[a][b] = valnt;
-            if (opt.hasLabelSets && m.fam == 'L' && !m.nolabel)
-                o.hasl[a][b] = std::to_string(v.k) + ",";
+            if (opt.hasLabelSets && m.fam == 'L' && !m.nolabel) {
+                if (m.singleLabel) {
+                    o.hasl[a][b].clear();
+                    for (int q = 0; q < LABEL_K; ++q)
+                        o.hasl[a][b] += std::to_string(q) + ",";
+                } else
+                    o.hasl[a][b] = std::to_string(v.k) + ",";
+            }
             if (m.fam == 'W')
                 o.wm[a][b] = fmtW(v.w);
         };
@@ -665,8 +672,26 @@ struct Engine {
         m.directed = T::directed;
         m.fam = T::fam;
         m.nolabel = T::nolabel;
+        if constexpr (T::fam == 'L')
+            m.singleLabel = SingleValued<L>::value;
         m.n = n0;
     }
+
+    // A reference to an element of the graph's own neighbour lists that holds the value v (or nullptr).
+    // Passing such a reference where the API takes a vertex index is a valid use; a callee that keeps
+    // it as a reference while erasing list nodes reads freed memory.
+    const VertexIndex *aliasOf(unsigned v, bool fromBack) const {
+        const VertexIndex *found = nullptr;
+        for (unsigned u = 0; u < m.n; ++u)
+            for (const VertexIndex &x : g.getOutNeighbours(u))
+                if (x == v) {
+                    found = &x;
+                    if (!fromBack)
+                        return found;
+                }
+        return found;
+    }
+    static bool wantsAlias(const Op &op) { return !op.a.empty() && (op.a.back() == "alias" || op.a.back() == "alias2"); }
 
     // resolve the pair an op names
     bool resolvePair(const Op &op, unsigned &i, unsigned &j) {
@@ -769,7 +794,7 @@ struct Engine {
             }
             if constexpr (T::fam == 'L') {
                 x = ((x % LABEL_K) + LABEL_K) % LABEL_K;
-                if (dfltOverload || T::nolabel)
+                if (dfltOverload || T::nolabel || m.singleLabel)
                     x = 0;
             } else if constexpr (T::fam == 'M') {
                 if (k == "add1" && !opt.pairValues)
@@ -857,7 +882,7 @@ struct Engine {
                 facts.kinds.insert("recip");
                 if constexpr (T::fam == 'L') {
                     x = ((x % LABEL_K) + LABEL_K) % LABEL_K;
-                    if (dfltOverload || T::nolabel)
+                    if (dfltOverload || T::nolabel || m.singleLabel)
                         x = 0;
                     if (dfltOverload) {
                         tr("addReciprocalEdge(" + ps(i, j) + ")");
@@ -914,12 +939,16 @@ struct Engine {
             facts.kinds.insert(k);
             const MVal *cur = m.find(i, j);
             if constexpr (T::fam == 'M') {
+                const VertexIndex *ai = wantsAlias(op) ? aliasOf(i, false) : nullptr, *aj = wantsAlias(op) ? aliasOf(j, true) : nullptr;
+                const VertexIndex &ri = ai ? *ai : i, &rj = aj ? *aj : j;
+                if (ai || aj)
+                    facts.tag("aliased_argument");
                 if (k == "rm") {
                     tr("removeEdge(" + ps(i, j) + ")");
-                    call([&] { g.removeEdge(i, j); });
+                    call([&] { g.removeEdge(ri, rj); });
                 } else {
                     tr("removeMultiedge(" + ps(i, j) + "," + std::to_string(x) + ")");
-                    call([&] { g.removeMultiedge(i, j, (unsigned)x); });
+                    call([&] { g.removeMultiedge(ri, rj, (unsigned)x); });
                 }
                 if (!cur) {
                     semanticNoop = true;
@@ -938,8 +967,12 @@ struct Engine {
                 }
             } else {
                 if (k == "rmk") { skipped = true; return ""; }
+                const VertexIndex *ai = wantsAlias(op) ? aliasOf(i, false) : nullptr, *aj = wantsAlias(op) ? aliasOf(j, true) : nullptr;
+                const VertexIndex &ri = ai ? *ai : i, &rj = aj ? *aj : j;
+                if (ai || aj)
+                    facts.tag("aliased_argument");
                 tr("removeEdge(" + ps(i, j) + ")");
-                call([&] { g.removeEdge(i, j); });
+                call([&] { g.removeEdge(ri, rj); });
                 if (!cur) {
                     semanticNoop = true;
                     facts.tag("noop_rm_absent");
@@ -962,6 +995,8 @@ struct Engine {
             } else {
                 if (!resolvePair(op, i, j)) { skipped = true; return ""; }
                 long long x = ((op.i(3) % LABEL_K) + LABEL_K) % LABEL_K;
+                if (m.singleLabel)
+                    x = 0;
                 bool force = op.i(4) & 1;
                 const MVal *cur = m.find(i, j);
                 if (!cur && force) { // documented orphan label: outside every property
@@ -996,8 +1031,12 @@ struct Engine {
                     x = -x;
                 facts.kinds.insert("setm");
                 const MVal *cur = m.find(i, j);
+                const VertexIndex *ai = wantsAlias(op) ? aliasOf(i, false) : nullptr, *aj = wantsAlias(op) ? aliasOf(j, true) : nullptr;
+                const VertexIndex &ri = ai ? *ai : i, &rj = aj ? *aj : j;
+                if (ai || aj)
+                    facts.tag("aliased_argument");
                 tr("setEdgeMultiplicity(" + ps(i, j) + "," + std::to_string(x) + ")");
-                call([&] { g.setEdgeMultiplicity(i, j, (unsigned)x); });
+                call([&] { g.setEdgeMultiplicity(ri, rj, (unsigned)x); });
                 if (x == 0) {
                     if (!cur) {
                         semanticNoop = true;
@@ -1072,8 +1111,13 @@ struct Engine {
                 v = (op.u(0) / m.e.size()) & 1 ? it->first.second : it->first.first;
             }
             facts.kinds.insert("rmvtx");
-            tr("removeVertexFromEdgeList(" + std::to_string(v) + ")");
-            call([&] { g.removeVertexFromEdgeList(v); });
+            const VertexIndex *al = wantsAlias(op) ? aliasOf(v, op.a.back() == "alias2") : nullptr;
+            tr("removeVertexFromEdgeList(" + std::to_string(v) + (al ? " /*reference into a neighbour list*/)" : ")"));
+            if (al) {
+                facts.tag("aliased_argument");
+                call([&] { g.removeVertexFromEdgeList(*al); });
+            } else
+                call([&] { g.removeVertexFromEdgeList(v); });
             bool any = false;
             for (auto it = m.e.begin(); it != m.e.end();) {
                 if (it->first.first == v || it->first.second == v) {
